@@ -31,7 +31,7 @@ def synth (cfg : CheckCfg) : List OTy → Node → Option OTy
     | none => none
   | cs, .binary _ op l r =>
     match synth cfg cs l, synth cfg cs r with
-    | some lt, some rt => Except.toOption' (binaryRule op lt rt)
+    | some lt, some rt => Except.toOption' (binaryRule cfg.dt op lt rt)
     | _, _ => none
   | cs, .matches _ _ l r =>
     match synth cfg cs l, synth cfg cs r with
@@ -47,7 +47,7 @@ def synth (cfg : CheckCfg) : List OTy → Node → Option OTy
     | _, _ => none
   | cs, .slice _ x from_ to =>
     match synth cfg cs x with
-    | some t => if sliceable t && synthBound cfg cs from_ && synthBound cfg cs to then some t else none
+    | some t => if sliceable cfg.dt t && synthBound cfg cs from_ && synthBound cfg cs to then some t else none
     | none => none
   | cs, .method _ x name args nilsafe =>
     match synth cfg cs x with
@@ -107,7 +107,7 @@ def synth (cfg : CheckCfg) : List OTy → Node → Option OTy
   | cs, .map _ ps => if synthList cfg cs ps then some mapTy else none
   | cs, .pair _ k v =>
     match synth cfg cs k, synth cfg cs v with
-    | some _, some _ => some none
+    | some kt, some _ => if (Except.toOption' (pairKeyRule cfg.dt kt)).isSome then some none else none
     | _, _ => none
 
 /-- a slice bound, when present, is a well-typed integer expression -/
@@ -153,10 +153,16 @@ instance (cfg : CheckCfg) (n : Node) : Decidable (WellTyped cfg n) := by
 
 /-! ### "all its operands are statically typed" -/
 
-/-- every sub-expression has a static (non-interface, non-nil) type -/
+/-- a defined scalar type (`type MyInt int`): outside the property's quantifier ("every numeric kind,
+strings, bools, structs, slices, maps, functions and methods") -/
+def Ty.isDefinedScalar : Ty → Bool
+  | .named _ _ u => (match u.core with | .num _ | .string | .bool => true | _ => false)
+  | _ => false
+
+/-- every sub-expression has a static (non-interface, non-nil, non-defined-scalar) type -/
 def staticTy (t : Option OTy) : Bool :=
   match t with
-  | some (some ty) => ty.kind != .iface
+  | some (some ty) => ty.kind != .iface && !ty.isDefinedScalar
   | _ => false
 
 mutual
